@@ -148,10 +148,13 @@ CHECKS["C04"] = dict(
           "Oracle: the parent knows the acknowledged prefix and the at most one in-flight step from the pipe; after a clean reopen GetKeys/Get of all keys must equal the model after the prefix, or after prefix + in-flight step (autocommit write or Commit: all keys together or none); every listed key readable and complete; a second reopen gives the same state. "
           "Sets/Deletes inside a running Badger transaction are mutation points too (nothing of the transaction may be visible after a kill there); half of the workloads contain an 'overtaken commit' fragment (a ReadUncommitted/ReadCommitted transaction writes, somebody commits a newer value, the transaction commits). "
           "part 'bulk': one transaction writes 40-600 fresh keys with names of 20-40 KB, so that its version records approach or exceed what one Badger transaction holds (about 10 MB; fs_db then refuses the Commit as a whole, which the child acknowledges as failed); crash points are sampled: 6-10 inside the Commit plus as many over the rest of the run. "
+          "part 'timed' (thorough tier only): the same workloads, but the parent kills the child from outside at 6-14 generated moments (thousandths of the span between 'database opened' and the last acknowledgement of the uncrashed run), so the kill lands anywhere - inside a Badger call, inside a file write, between two instructions - not only at hook points; same oracle; a failure is saved as a snapshot of the crashed directory (restored at its original path by the replay, because fs_db records absolute paths) together with what the child had acknowledged. "
           "one evaluation = one workload (counters give the number of child runs); non-trivial = some crash landed after the first step started and before the last was acknowledged."),
     assumptions=["process kill only: the page cache survives (power loss / fsync ordering is outside the statement and cannot be injected here)",
-                 "crash positions are counted globally, so background cleaner mutations are crash points too; their interleaving is not controlled, the replay re-runs the same workload and index"],
+                 "crash positions are counted globally, so background cleaner mutations are crash points too; their interleaving is not controlled, the replay re-runs the same workload and index",
+                 "part 'timed' depends on the real scheduler and clock for WHERE the kill lands (it can only add detections; the saved directory makes a failure re-checkable)"],
     parts=[P("crash", "seq", "TestC04", dict(checks=16, shards=8, timeout=900, shrinktime="30s"), dict(checks=320, shards=16, timeout=3400, shrinktime="60s")),
+           P("timed", "seq", "TestC04Timed", None, dict(checks=640, shards=16, timeout=3400, shrinktime="1s")),
            P("bulk", "seq", "TestC04Bulk", dict(checks=2, shards=2, timeout=900, shrinktime="1s"), dict(checks=16, shards=16, timeout=3400, shrinktime="1s"))],
 )
 
